@@ -56,6 +56,12 @@ pub struct MqttState {
     pub(crate) last_pkid: u16,
     /// Packet id of the last acked publish
     pub(crate) last_puback: u16,
+    /// Number of publishes stored in `outgoing_pub` so far
+    pub(crate) outgoing_count: u64,
+    /// For every slot of `outgoing_pub`, the value of `outgoing_count` when it was filled.
+    /// Packet ids say nothing about age once they have wrapped around, been consumed by
+    /// SUBSCRIBE / UNSUBSCRIBE or acknowledged out of order
+    pub(crate) outgoing_order: Vec<u64>,
     /// Number of outgoing inflight publishes
     pub(crate) inflight: u16,
     /// Maximum number of allowed inflight
@@ -86,6 +92,8 @@ impl MqttState {
             last_outgoing: Instant::now(),
             last_pkid: 0,
             last_puback: 0,
+            outgoing_count: 0,
+            outgoing_order: vec![0; max_inflight as usize + 1],
             inflight: 0,
             max_inflight,
             // index 0 is wasted as 0 is not a valid packet id
@@ -102,15 +110,23 @@ impl MqttState {
     /// Returns inflight outgoing packets and clears internal queues
     pub fn clean(&mut self) -> Vec<Request> {
         let mut pending = Vec::with_capacity(100);
-        let (first_half, second_half) = self
-            .outgoing_pub
-            .split_at_mut(self.last_puback as usize + 1);
 
-        for publish in second_half.iter_mut().chain(first_half) {
+        // remove and collect pending publishes, oldest first: they have to be
+        // retransmitted in the order in which they were originally sent
+        let mut publishes = Vec::with_capacity(100);
+        let split = self.last_puback as usize + 1;
+        let (first_half, second_half) = self.outgoing_pub.split_at_mut(split);
+        let (first_order, second_order) = self.outgoing_order.split_at(split);
+        let slots = second_half.iter_mut().zip(second_order);
+        for (publish, order) in slots.chain(first_half.iter_mut().zip(first_order)) {
             if let Some(publish) = publish.take() {
-                let request = Request::Publish(publish);
-                pending.push(request);
+                publishes.push((*order, publish));
             }
+        }
+        // the rotation at the last acknowledged id only decides between equal stamps
+        publishes.sort_by_key(|(order, _)| *order);
+        for (_, publish) in publishes {
+            pending.push(Request::Publish(publish));
         }
 
         // remove and collect pending releases
@@ -243,6 +259,7 @@ impl MqttState {
         self.inflight -= 1;
         let packet = self.check_collision(puback.pkid).map(|publish| {
             self.outgoing_pub[publish.pkid as usize] = Some(publish.clone());
+            self.sent_now(publish.pkid);
             self.inflight += 1;
 
             let event = Event::Outgoing(Outgoing::Publish(publish.pkid));
@@ -301,6 +318,7 @@ impl MqttState {
             // the released publish is in flight from now on: it has to be acknowledged and,
             // if the connection breaks first, retransmitted
             self.outgoing_pub[publish.pkid as usize] = Some(publish.clone());
+            self.sent_now(publish.pkid);
             self.inflight += 1;
 
             let event = Event::Outgoing(Outgoing::Publish(publish.pkid));
@@ -347,6 +365,7 @@ impl MqttState {
             // if there is an existing publish at this pkid, this implies that broker hasn't acked this
             // packet yet. This error is possible only when broker isn't acking sequentially
             self.outgoing_pub[pkid as usize] = Some(publish.clone());
+            self.sent_now(pkid);
             self.inflight += 1;
         };
 
@@ -469,6 +488,12 @@ impl MqttState {
         self.events.push_back(event);
 
         Ok(Some(Packet::Disconnect))
+    }
+
+    /// Records that the publish in slot `pkid` is the most recently sent one
+    fn sent_now(&mut self, pkid: u16) {
+        self.outgoing_order[pkid as usize] = self.outgoing_count;
+        self.outgoing_count += 1;
     }
 
     fn check_collision(&mut self, pkid: u16) -> Option<Publish> {
@@ -814,6 +839,34 @@ mod test {
 
         // should ping
         mqtt.outgoing_ping().unwrap();
+    }
+
+    #[test]
+    fn clean_returns_publishes_in_the_order_they_were_sent() {
+        let mut mqtt = MqttState::new(2, false);
+        let publish = |payload: u8| {
+            Request::Publish(Publish::new("hello/world", QoS::AtLeastOnce, vec![payload]))
+        };
+
+        // id 1, acked in order; a subscribe takes id 2; the next publishes get ids 1 and 2
+        mqtt.handle_outgoing_packet(publish(1)).unwrap();
+        mqtt.handle_incoming_packet(Incoming::PubAck(PubAck::new(1)))
+            .unwrap();
+        let subscribe = Subscribe::new("hello/world", QoS::AtMostOnce);
+        mqtt.handle_outgoing_packet(Request::Subscribe(subscribe))
+            .unwrap();
+        mqtt.handle_outgoing_packet(publish(2)).unwrap();
+        mqtt.handle_outgoing_packet(publish(3)).unwrap();
+
+        let payloads: Vec<u8> = mqtt
+            .clean()
+            .into_iter()
+            .map(|request| match request {
+                Request::Publish(publish) => publish.payload[0],
+                request => panic!("unexpected request {request:?}"),
+            })
+            .collect();
+        assert_eq!(payloads, vec![2, 3]);
     }
 
     #[test]
